@@ -82,7 +82,7 @@ PROPS["C04"] = dict(
 )
 PROPS["C05"] = dict(
     module="Panacea.Properties.C05",
-    obligations=["Panacea.C05.create_existing_fails_noop", "Panacea.C05.deactivate_makes_tombstone",
+    obligations=["Panacea.C05.genesis_seq_bound", "Panacea.C05.genesis_deactivate_makes_tombstone", "Panacea.C05.create_existing_fails_noop", "Panacea.C05.deactivate_makes_tombstone",
                  "Panacea.C05.tombstone_forever", "Panacea.C05.update_never_deactivates"],
     streams=DID_STREAM + [dict(name="genesis", quick=25, thorough=400, thorough_seeds=2)], trusted=DID_TRUSTED, assumptions=DID_ASSUME,
     note="export/import and restart preservation of tombstones: C08 / C10",
